@@ -76,6 +76,70 @@ Definition eval_symlinks (root : dnode) (p : string) : res string :=
   | Diverge => Diverge
   end.
 
+(* walkSymlinks on a RELATIVE path (filepath.EvalSymlinks does not make its argument absolute): the
+   resolved prefix [dest] is relative to the working directory and may start with ".." components; Lstat
+   resolves it from the working directory.  [rel]: dest as a stack, innermost first — names on top of
+   kept ".." components.  An absolute link switches to the absolute walk.
+   Result: (absolute?, components); the relative result may start with "..". *)
+Fixpoint count_dotdot (rel : list string) : nat :=
+  match rel with
+  | [] => O
+  | c :: t => if is_dotdot c then S (count_dotdot t) else count_dotdot t
+  end.
+
+(* physical location (stack, innermost first) of the relative dest, from the working directory *)
+Definition rel_phys (cwd_stk rel : list string) : list string :=
+  filter (fun c => negb (is_dotdot c)) rel ++ skipn (count_dotdot rel) cwd_stk.
+
+Fixpoint eval_links_rel (root : dnode) (cwd_stk : list string) (budget : nat)
+  : list string -> list string -> res (bool * list string) :=
+  fix go (rel todo : list string) {struct todo} : res (bool * list string) :=
+    match todo with
+    | [] => Ok (false, rev rel)
+    | c :: rest =>
+        if is_skip c then go rel rest
+        else if is_dotdot c then
+          match rel with
+          | top :: rel' => if is_dotdot top then go (c :: rel) rest else go rel' rest
+          | [] => go [c] rest
+          end
+        else
+          match d_at root (rev (rel_phys cwd_stk (c :: rel))) with
+          | None => Err
+          | Some (DDir _) => go (c :: rel) rest
+          | Some (DFile _) =>
+              match rest with
+              | [] => Ok (false, rev (c :: rel))
+              | _ :: _ => Err
+              end
+          | Some (DLink t) =>
+              match budget with
+              | O => Err
+              | S b =>
+                  if is_abs t then
+                    match eval_links root b [] (raw_comps t ++ rest) with
+                    | Ok phys => Ok (true, phys)
+                    | Err => Err
+                    | Panic => Panic
+                    | Diverge => Diverge
+                    end
+                  else eval_links_rel root cwd_stk b rel (raw_comps t ++ rest)
+              end
+          end
+    end.
+
+(* filepath.EvalSymlinks(p) with the process in directory cwd *)
+Definition eval_symlinks_at (root : dnode) (cwd p : string) : res string :=
+  if is_abs p then eval_symlinks root p
+  else
+    match eval_links_rel root (rev (comps cwd)) go_link_budget [] (raw_comps p) with
+    | Ok (true, phys) => Ok (clean (abs_of phys))
+    | Ok (false, rel) => Ok (clean (join_with sep rel))
+    | Err => Err
+    | Panic => Panic
+    | Diverge => Diverge
+    end.
+
 (* path resolution done by the kernel for stat/open (all links followed, also the last one) *)
 Definition os_resolve (root : dnode) (cwd p : string) : option (list string * dnode) :=
   match p with
